@@ -106,6 +106,28 @@ Theorem C02_bridge :
     in2 d pre post = true.
 Proof. exact bridge. Qed.
 
+(** Static obligation: the read APIs documented as snapshots (get_wallet_summary, the migration
+    oracles mined_height and check_step_satisfiability) open exactly one unchecked_transaction()
+    and touch the connection nowhere else (no database read before or beside the bracket). *)
+Theorem C02_snapshot_reads_bracketed :
+  forallb (fun p : string * bool => snd p) snapshot_reads = true.
+Proof. exact snapshot_reads_bracketed. Qed.
+
+(** Bridge for the real snapshot reads: if the reader's observed statements all sit in one read
+    transaction ([disciplined_reader]), the writer call that ran meanwhile is one disciplined
+    call, and the returned value agrees with the reference semantics on the observed
+    interleaving ([run_case]), then the API returned what it returns before the writer call or
+    what it returns after it. *)
+Theorem C02_read_bridge :
+  forall a k mode tr pre post res,
+    run_case (CRead a k mode tr pre post res) = true ->
+    disciplined_reader (expand tr) = true ->
+    single_op (writer_part (expand tr)) = true ->
+    disciplined (expand tr) = true ->
+    (res =? 0) = false ->
+    (res =? pre) || (res =? post) = true.
+Proof. exact read_bridge. Qed.
+
 Example C02_nonvacuous :
   disciplined (op_trace 0 [Begin; Write 1; Write 2; Commit] true) = true /\
   durable (log_sem (op_trace 0 [Begin; Write 1; Write 2; Commit] true)) = [1; 2] /\
